@@ -191,6 +191,7 @@ type Exec struct {
 	start   time.Time
 	Debug   bool
 	failDial map[string]bool
+	stallClient map[string]bool
 	// FrameHook, if set, sees every frame at delivery time (dir "req"/"resp").
 	FrameHook func(c *Conn, dir string, key, ver int16, body []byte)
 	Data    any // scenario state
@@ -269,6 +270,26 @@ func (x *Exec) FailDials(client string, on bool) {
 	x.mu.Unlock()
 }
 
+// StallClient freezes (on=true) every current and future connection of the
+// named client: frames are neither delivered nor offered as events until the
+// client gives the connection up, or pass-through mode begins (slow broker).
+func (x *Exec) StallClient(client string, on bool) {
+	x.mu.Lock()
+	if x.stallClient == nil {
+		x.stallClient = map[string]bool{}
+	}
+	x.stallClient[client] = on
+	conns := append([]*Conn(nil), x.conns...)
+	x.mu.Unlock()
+	for _, c := range conns {
+		if c.Client == client {
+			c.mu.Lock()
+			c.stalled = on
+			c.mu.Unlock()
+		}
+	}
+}
+
 // Dialer returns the kgo.Dialer function for a named client.
 func (x *Exec) Dialer(client string) func(ctx context.Context, network, addr string) (net.Conn, error) {
 	return func(ctx context.Context, network, addr string) (net.Conn, error) {
@@ -291,6 +312,9 @@ func (x *Exec) Dialer(client string) func(ctx context.Context, network, addr str
 			}
 		}
 		c := &Conn{Client: client, Broker: broker, cli: proxyEnd, srv: srv, x: x, addr: addr}
+		x.mu.Lock()
+		c.stalled = x.stallClient[client] && !x.auto
+		x.mu.Unlock()
 		c.toSrv = newWQ(srv, func() { c.close("server-write") })
 		c.toCli = newWQ(proxyEnd, func() { c.close("client-write") })
 		x.mu.Lock()
@@ -850,6 +874,43 @@ func (x *Exec) run() {
 			steps++
 			continue
 		}
+		if Burst {
+			// Burst mode (C41, built with -race): release ALL enabled
+			// events back to back without waiting for quiescence in between,
+			// so their handling overlaps inside the client; the deviation is
+			// to hold exactly one of them back for this round.
+			var plain []event
+			for _, e := range evs {
+				if !isFaultLabel(e.label) {
+					plain = append(plain, e)
+				}
+			}
+			labels := []string{"all"}
+			if len(plain) > 1 {
+				for _, e := range plain {
+					labels = append(labels, "hold:"+e.label)
+				}
+			}
+			choice := 0
+			pi := len(x.res.Points)
+			if pi < len(x.job.Prefix) {
+				choice = x.job.Prefix[pi]
+				if choice >= len(labels) || (pi < len(x.job.Labels) && labels[choice] != x.job.Labels[pi]) {
+					x.res.Diverged = true
+					break
+				}
+			}
+			x.res.Points = append(x.res.Points, explore.Point{Labels: labels, Chosen: choice})
+			x.Logf("burst %d: %s of %v", pi, labels[choice], labels)
+			for i, e := range plain {
+				if choice > 0 && i == choice-1 {
+					continue
+				}
+				e.fire()
+				steps++
+			}
+			continue
+		}
 		labels := make([]string, 0, len(evs)+1)
 		for _, e := range evs {
 			labels = append(labels, e.label)
@@ -881,6 +942,20 @@ func (x *Exec) run() {
 	if sc.Final != nil && !x.res.Diverged {
 		sc.Final(x)
 	}
+}
+
+// Burst switches every execution of this process to burst stepping (see run).
+// It is set from the environment (VERIF_BURST=1) so that parent and worker
+// processes agree.
+var Burst = os.Getenv("VERIF_BURST") == "1"
+
+func isFaultLabel(l string) bool {
+	for _, p := range []string{"kill", "err", "rewrite", "stall"} {
+		if strings.HasPrefix(l, p) {
+			return true
+		}
+	}
+	return false
 }
 
 // tick blocks the controller so that the virtual clock can advance to the
